@@ -52,3 +52,34 @@ def dask_rows(X, chunks):
     import dask.array as da
 
     return da.from_array(np.asarray(X), chunks=(tuple(int(c) for c in chunks), X.shape[1]))
+
+
+def make_fa(case, **kw):
+    """ISVMachine / JFAMachine holding the generated U, V, D over the generated UBM."""
+    from bob.learn.em import ISVMachine, JFAMachine
+
+    ubm = make_gmm(case["ubm"])
+    U = np.array(case["U"], dtype=float)
+    if case["jfa"]:
+        m = JFAMachine(r_U=U.shape[1], r_V=np.asarray(case["V"]).shape[1], ubm=ubm, **kw)
+        m.V = np.array(case["V"], dtype=float)
+    else:
+        m = ISVMachine(r_U=U.shape[1], ubm=ubm, **kw)
+    m.U = U
+    m.D = np.array(case["D"], dtype=float)
+    return m
+
+
+def sessions_of(case, key="sessions"):
+    return [make_stats(s) for s in case[key]]
+
+
+def nf(sessions):
+    return [(np.asarray(s["n"], float), np.asarray(s["sum_px"], float)) for s in sessions]
+
+
+def fa_ref(case):
+    from vf import ref
+
+    p = case["ubm"]
+    return ref.FA(p["means"], p["variances"], case["U"], case["D"], case["V"] if case["jfa"] else None)
